@@ -1216,28 +1216,39 @@ static void struct_initializer2(Token **rest, Token *tok, Initializer *init, Mem
 }
 
 static void union_initializer(Token **rest, Token *tok, Initializer *init) {
-  // Unlike structs, union initializers take only one initializer,
-  // and that initializes the first union member by default.
-  // You can initialize other member using a designated initializer.
-  if (equal(tok, "{") && equal(tok->next, ".")) {
-    Member *mem = struct_designator(&tok, tok->next, init->ty);
-    init->mem = mem;
-    designation(&tok, tok, init->children[mem->idx]);
-    *rest = skip(tok, "}");
+  // Unlike structs, a union holds only one member at a time. An
+  // initializer without a designator initializes the first named
+  // member; a designated initializer selects another member. If there
+  // is more than one designated initializer, the last one wins.
+  if (equal(tok, "{")) {
+    tok = tok->next;
+    bool first = true;
+
+    while (!consume_end(rest, tok)) {
+      if (!first)
+        tok = skip(tok, ",");
+
+      if (equal(tok, ".")) {
+        Member *mem = struct_designator(&tok, tok, init->ty);
+        init->mem = mem;
+        designation(&tok, tok, init->children[mem->idx]);
+      } else if (first) {
+        init->mem = skip_unnamed(init->ty->members);
+        if (!init->mem)
+          error_tok(tok, "union has no named member to initialize");
+        initializer2(&tok, tok, init->children[init->mem->idx]);
+      } else {
+        tok = skip_excess_element(tok);
+      }
+      first = false;
+    }
     return;
   }
 
   init->mem = skip_unnamed(init->ty->members);
   if (!init->mem)
     error_tok(tok, "union has no named member to initialize");
-
-  if (equal(tok, "{")) {
-    initializer2(&tok, tok->next, init->children[init->mem->idx]);
-    consume(&tok, tok, ",");
-    *rest = skip(tok, "}");
-  } else {
-    initializer2(rest, tok, init->children[init->mem->idx]);
-  }
+  initializer2(rest, tok, init->children[init->mem->idx]);
 }
 
 // initializer = string-initializer | array-initializer
